@@ -62,6 +62,17 @@ pub fn pack(f: &Field, be: bool, o: &mut Vec<u8>) {
     }
 }
 
+#[derive(Debug, Clone, Hash, PartialEq, Eq, Serialize, Deserialize)]
+pub struct RawCase {
+    pub types: Vec<RType>,
+    pub big_endian: bool,
+    #[serde(with = "crate::util::hexser")]
+    pub data: Vec<u8>,
+}
+pub fn check_raw(c: &RawCase) -> CheckResult {
+    crate::oracle::c13_decode(&c.types, c.big_endian, &c.data)
+}
+
 pub fn check(c: &Case) -> CheckResult {
     let be = c.big_endian;
     let e = if be { Endianness::Big } else { Endianness::Little };
@@ -181,8 +192,25 @@ pub fn run(run: &Run) {
     run.assume("strings are generated without NUL except an optional final terminator; whether the terminator is kept in the value is left open by the statement");
     run.regressions(&replay);
     run.random("construct", run.cases(60_000, 1_200_000), 0.5, strategy, check);
+    // arbitrary payloads (not produced by the reference packing): verdict and values must equal the reference decode
+    run.random(
+        "arbitrary-payloads",
+        run.cases(100_000, 2_000_000),
+        0.3,
+        || {
+            (vec(field().prop_map(|f| f.ty), 0..8), any::<bool>(), prop_oneof![vec(any::<u8>(), 0..40), vec(prop::sample::select(vec![0u8, 1, 2, 3, 4, 0x61, 0xC3, 0xA9, 0xFF]), 0..40)])
+                .prop_map(|(types, big_endian, data)| RawCase { types, big_endian, data })
+        },
+        check_raw,
+    );
 }
 
-pub fn replay(_section: &str, case: &Json) -> Option<CheckResult> {
+pub fn replay(section: &str, case: &Json) -> Option<CheckResult> {
+    if section.starts_with("fuzz-") {
+        return super::fuzz_replay("C13", section, case);
+    }
+    if section == "arbitrary-payloads" || section == "fuzz-args" {
+        return case_from::<RawCase>(case).map(|c| check_raw(&c));
+    }
     case_from::<Case>(case).map(|c| check(&c))
 }
